@@ -40,7 +40,7 @@ Definition ArgPost (curObj argTy : N) (s : pstate) (g : ghost) (ar : option N * 
     FD s' g' /\ ExtD s g s' g' /\
     Fr NoP (eq curObj) (fun y => argTy = aml_pArgTypeFieldList /\ In curObj (kids g y)) s g s' g' /\
     (okres res -> argTy <> aml_pArgTypeFieldList -> kids g' curObj = kids g curObj) /\
-    (argTy = aml_pArgTypeFieldList -> finsert g g' curObj) /\
+    (argTy = aml_pArgTypeFieldList -> finsert s' g g' curObj) /\
     fresh_root g g' a /\ Psi s' <= Psi s + 2 /\
     (okres res -> Psi s' <= Psi s + ucost argTy /\ p_scopeStack s' = p_scopeStack s /\
                   TM (fun m => m = curObj /\ nolook argTy = true) s' g') /\
@@ -257,7 +257,7 @@ Proof.
   { unfold roomD, Psi, Phi in *. lia. }
   { exact HLN. }
   { intros []. }
-  intros res s' (g' & H' & X' & (Q1 & Q2 & Q3 & Q4 & Q5) & Fr' & (new & Hnew)).
+  intros res s' (g' & H' & X' & (Q1 & Q2 & Q3 & Q4 & Q5) & Fr' & (new & Hnew & Hsibs)).
   apply wp_ret. intros Erun. unfold ArgPost. exists g'.
   assert (Hnm : forall i o, tget (p_tree s') i = Some o -> o_opcode o = aml_pOpMethod ->
                  exists o0, tget (p_tree s) i = Some o0 /\ o_opcode o0 = aml_pOpMethod).
@@ -266,11 +266,11 @@ Proof.
   assert (Hlpar : glive g par) by (apply (Hwf par curObj Hin)).
   destruct (R_live_glive _ _ HR par) as (_ & Hlv). destruct (Hlv Hlpar) as (po & Hpo & Hlpo).
   destruct (R_kids _ _ HR _ _ Hpo Hlpo) as (_ & _ & _ & Hnd).
-  assert (Hfin : finsert g g' curObj).
+  assert (Hfin : finsert s' g g' curObj).
   { intros par' l1' tl' Ek'. assert (par' = par).
     { eapply (R_parent_unique _ _ HR); [|exact Hin]. rewrite Ek'. apply in_or_app. right. left. reflexivity. }
     subst par'. rewrite Ek in Ek'. rewrite Ek in Hnd. destruct (nodup_split_unique _ _ _ _ _ Hnd Ek') as (-> & ->).
-    exists new. exact Hnew. }
+    exists new. split; [exact Hnew|exact Hsibs]. }
   assert (Hrem : rem s' <= rem s) by (unfold rem; pose proof (ex_len _ _ _ _ X'); pose proof (ex_off _ _ _ _ X'); lia).
   split; [exact H'|]. split; [apply Ext_ExtD; exact X'|].
   split.
